@@ -478,6 +478,19 @@ def rule_ctor(ctx, M):
         dst = P.strip(pr.operand(t["args"][0]), calls=False)
         if pos is not None and not (dst[0] == "call" and dst[1].endswith("::index_mut") and P.strip(dst[2][1]) == pos):
             problems.append("entries are not pushed into the list of the player being iterated")
+    # after collection the entry lists are only read: no retain / remove / truncate / drain / clear … anywhere
+    shrink = ("retain", "retain_mut", "remove", "swap_remove", "truncate", "drain", "clear", "pop", "dedup", "dedup_by", "dedup_by_key",
+              "split_off", "resize", "sort", "sort_by", "sort_unstable", "sort_by_key", "reverse", "rotate_left", "rotate_right", "swap")
+    entry_ty = M.entry_vec_ty
+    for p_ in sorted(set(M.reach)):
+        g = M.F.fns[p_]
+        for bi2, t2 in g.calls():
+            nm = t2["callee"].get("name")
+            if nm in shrink and t2["args"]:
+                rty = g.local_ty((t2["args"][0].get("move") or t2["args"][0].get("copy") or {"l": 0})["l"])
+                if entry_ty in rty or f"[({evalmodel.CARD_PAIR}, f32" in rty:
+                    problems.append(f"{p_} calls `{nm}` on a player's entry list: entries are dropped or reordered after they were collected "
+                                    f"(deals using them go missing or repeat)")
     # board: iterator.board <- evaluator.board
     ret = pr.local(0)
     if ret[0] == "agg" and ret[1].startswith("adt:" + M.iter_ty):
@@ -534,4 +547,12 @@ def run(ctx):
             f()
         except Unrecognised as e:
             ctx.unrecognised(e.rule, e.msg, e.fn, e.line)
+    # "all 5+2n cards are distinct" also needs the flop blocked: the showdown constructor's board test (C03's rule)
+    try:
+        from rules import c03
+        from sa.report import FilterCtx
+        c03.run(FilterCtx(ctx, ["board-collision"]), prefix="C02", set_explanation=False)
+    except Unrecognised as e:
+        if e.rule.endswith("board-collision") or e.rule.endswith(".shape"):
+            ctx.unrecognised("C02.board-collision", e.msg, e.fn, e.line)
     ctx.assume("exactly-once and completeness of the (turn, river, odometer) walk are runtime-state statements not decided here")
